@@ -19,11 +19,13 @@ Not decided: cell text = formatted model value for concrete values.
 from __future__ import annotations
 
 import ast
+import os
 
 from ..cfg import cfg_of
 from ..core import Ctx, key_of
 from ..dep import data, full
 from ..model import AnchorMissing, const_str, dotted, norm, own_nodes
+from ..order import local_resolver
 from .common import facts_of, returns
 
 META = {
@@ -42,7 +44,51 @@ LEDGER = {"slotSecondsUsed", "slotTaskUsage", "scoreboard", "_effort", "doneEffo
           "firstBookedSlot", "lastBookedSlot"}
 
 
+def case_folding_rule(ctx: Ctx, rid: str):
+    """A terminal the grammar matches without regard to case (`/.../i`) reaches the transformer in the user's spelling: a callback
+    that decides by comparing the text with the terminal's lower-case words folds the case first.  (`leaftasksonly True` parses;
+    without folding it means false and the report lists containers.)  Grammar text cross-checked against the callbacks."""
+    import re as _re
+    gtext = open(os.path.join(ctx.repo.root, "scriptplan", "parser", "tjp.lark")).read()
+    words = set()
+    for m in _re.finditer(r"^([A-Z_][A-Z_0-9]*)(?:\.\d+)?\s*:\s*/([^/\n]+)/i\s*$", gtext, _re.M):
+        for w in m.group(2).split("|"):
+            if w.isalpha():
+                words.add(w.lower())
+    if not words:
+        raise AnchorMissing("tjp.lark: no case-insensitive word terminal found")
+    tr = ctx.repo.cls("TJPTransformer")
+    n = 0
+    for nm, f in sorted(tr.methods.items()):
+        res = local_resolver(f.node)
+        for c in own_nodes(f):
+            if not (isinstance(c, ast.Compare) and len(c.ops) == 1 and isinstance(c.ops[0], (ast.In, ast.NotIn, ast.Eq, ast.NotEq))):
+                continue
+            rhs = c.comparators[0]
+            lits = [e.value for e in (rhs.elts if isinstance(rhs, (ast.Tuple, ast.List, ast.Set)) else [rhs]) if isinstance(e, ast.Constant) and isinstance(e.value, str)]
+            if not lits or not (set(l for l in lits if l.isalpha()) & words):
+                continue
+            n += 1
+
+            def folded(e, depth=0):
+                if any(isinstance(x, ast.Call) and isinstance(x.func, ast.Attribute) and x.func.attr in ("lower", "casefold", "upper") for x in ast.walk(e)):
+                    return True
+                if depth < 4:
+                    for x in ast.walk(e):
+                        if isinstance(x, ast.Name) and any(folded(v, depth + 1) for v in res(x)):
+                            return True
+                return False
+            ok = folded(c.left)
+            ctx.ob(rid, f"{f.qual}: {norm(c)[:60]}", (f, c), ok,
+                   "the token's case is folded before it is compared with the lower-case words" if ok else
+                   f"the grammar accepts {sorted(set(lits) & words)} in any case, the callback compares the raw text with the lower-case words: "
+                   "`True` / `YES` parse and mean false",
+                   key=key_of(rid, f, c, "case folding"))
+    ctx.floor(rid, 1)
+
+
 def run_extra(ctx: Ctx):
+    case_folding_rule(ctx, "R18.10")
     # ---------------------------------------------------------------- R18.9 nothing rendered is answered from state that outlives the question
     from .common import process_state_rule
     process_state_rule(ctx, "R18.9", [ctx.repo.func("Report.generate")],
